@@ -220,35 +220,46 @@ type flight struct {
 }
 
 var (
-	flights  sync.Map // token -> *flight
-	flightID int64
-	onHang   func(*Case)
-	hangOnce sync.Once
+	flights   sync.Map // overflow: token -> *flight
+	slots     [4096]atomic.Pointer[flight]
+	flightID  int64
+	onHang    func(*Case)
+	hangOnce  sync.Once
+	coarseNow atomic.Int64 // unix nanoseconds, refreshed by the watchdog
 )
 
 // InFlight registers an operation that is about to run; call the returned
-// function when it has returned.
+// function when it has returned. It costs two atomic operations.
 func InFlight(desc func() Case) func() {
 	id := atomic.AddInt64(&flightID, 1)
-	flights.Store(id, &flight{time.Now(), desc})
+	f := &flight{time.Unix(0, coarseNow.Load()), desc}
+	sl := &slots[id&4095]
+	if sl.CompareAndSwap(nil, f) {
+		return func() { sl.Store(nil) }
+	}
+	flights.Store(id, f)
 	return func() { flights.Delete(id) }
 }
 
 func startWatchdog() {
+	coarseNow.Store(time.Now().UnixNano())
 	go func() {
+		check := func(f *flight) {
+			if f != nil && time.Since(f.since) > HangLimit+2*time.Second && onHang != nil {
+				hangOnce.Do(func() {
+					c := f.desc()
+					c.Msg = fmt.Sprintf("hang: the operation did not return within %v: %s", HangLimit, c.Msg)
+					onHang(&c)
+				})
+			}
+		}
 		for {
 			time.Sleep(time.Second)
-			flights.Range(func(k, v any) bool {
-				f := v.(*flight)
-				if time.Since(f.since) > HangLimit && onHang != nil {
-					hangOnce.Do(func() {
-						c := f.desc()
-						c.Msg = fmt.Sprintf("hang: the operation did not return within %v: %s", HangLimit, c.Msg)
-						onHang(&c)
-					})
-				}
-				return true
-			})
+			coarseNow.Store(time.Now().UnixNano())
+			for i := range slots {
+				check(slots[i].Load())
+			}
+			flights.Range(func(k, v any) bool { check(v.(*flight)); return true })
 		}
 	}()
 }
